@@ -752,6 +752,14 @@ hwloc__xml_import_object(hwloc_topology_t topology,
     }
   }
 
+  if (ignored && !parent) {
+    /* the root object cannot be dropped, its children would have no parent */
+    if (hwloc__xml_verbose())
+      fprintf(stderr, "%s: invalid root object\n",
+              state->global->msgprefix);
+    goto error_with_object;
+  }
+
   /* process non-object subnodes to get info attrs (as well as page_types, etc) */
   while (1) {
     int ret;
